@@ -22,7 +22,11 @@ def dtype(t, errors, where):
     return '(DT "")'
 
 
-def emit_members(tab, eq_excluded=None):
+def emit_sig(sig):
+    return coq_list(["(%s, %s)" % (coq_str(n), coq_str(d or "")) for n, d in sig])
+
+
+def emit_members(tab, eq_excluded=None, supersig=None):
     """-> (text, errors)"""
     errors = []
     names = [c["name"] for c in tab["classes"]]
@@ -62,11 +66,16 @@ def emit_members(tab, eq_excluded=None):
                                               for p, x, a in P.pyxml(c)])) for c in names]))
     # attribute names GeneratedsSuper.__eq__ leaves out of the comparison (translators/tr_eq.py)
     out.append("Definition eq_excluded : list string := %s." % coq_list([coq_str(x) for x in (eq_excluded or [])]))
+    # calling conventions and run-time class attributes of generatedssupersuper.py (translators/tr_supersig.py)
+    sigs = (supersig or {}).get("signatures", {})
+    out.append("Definition add_signature : list (string * string) := %s." % emit_sig(sigs.get("add", [])))
+    out.append("Definition factory_signature : list (string * string) := %s." % emit_sig(sigs.get("component_factory", [])))
+    out.append("Definition class_level_attrs : list string := %s." % coq_list([coq_str(x) for x in (supersig or {}).get("class_attrs", [])]))
     return "\n".join(out) + "\n", errors
 
 
-def gen_members(ck, tab, eq_excluded=None):
-    text, errors = emit_members(tab, eq_excluded)
+def gen_members(ck, tab, eq_excluded=None, supersig=None):
+    text, errors = emit_members(tab, eq_excluded, supersig)
     ck.oblige("translate:supergen", not errors, "; ".join(errors[:20]), kind="translate")
     g = ck.gen_v("Gen_Members.v", text)
     ok, out = ck.coqc(g, timeout=600)
